@@ -1,4 +1,5 @@
 import CotengraVerif.Lemmas.Tensordot
+import CotengraVerif.Lemmas.PlanOKSound
 
 /-!
 # C11 — cotengra's matmul-based einsum and tensordot agree with the reference
@@ -96,7 +97,7 @@ theorem result_eq_reference {sz : Ix → Nat} (hpos : ∀ i, 0 < sz i) {aT bT ou
     (hlab : Lab sz out r fun env => sumEnv sz C env fun e =>
       sumEnv sz SA e (fun e' => a.get (aT.map e')) * sumEnv sz SB e (fun e' => b.get (bT.map e')))
     (hC : C.Nodup) (hSA : SA.Nodup) (hSB : SB.Nodup)
-    (hCm : ∀ i, i ∈ C ↔ i ∈ aT ∧ i ∈ bT ∧ i ∉ out ∧ sz i ≠ 1)
+    (hCm : ∀ i, sz i ≠ 1 → (i ∈ C ↔ i ∈ aT ∧ i ∈ bT ∧ i ∉ out))
     (hSAm : ∀ i, sz i ≠ 1 → (i ∈ SA ↔ i ∈ aT ∧ i ∉ bT ∧ i ∉ out))
     (hSBm : ∀ i, sz i ≠ 1 → (i ∈ SB ↔ i ∈ bT ∧ i ∉ aT ∧ i ∉ out)) :
     r.shape = (einsum2 aT bT out a b).shape ∧
@@ -144,9 +145,9 @@ theorem plan_sound_of_guard (lc : Bool) (sz : Ix → Nat) (hpos : ∀ i, 0 < sz 
     obtain ⟨_, _, hnsA, hmA⟩ := scan_spec aT (out.filter (has aT))
     obtain ⟨_, _, hnsB, hmB⟩ := scan_spec bT (out.filter (has bT))
     apply result_eq_reference hpos hout hsub hsa hsb (C := []) hlab (by simp) hnsA hnsB
-    · intro i
+    · intro i hnt
       simp only [List.not_mem_nil, false_iff]
-      intro h; exact hcon i ⟨⟨h.1, h.2.2.2⟩, h.2.1, h.2.2.1⟩
+      intro h; exact hcon i ⟨⟨h.1, hnt⟩, h.2.1, h.2.2⟩
     · intro i hnt
       rw [hmA]
       constructor
@@ -171,7 +172,7 @@ theorem plan_sound_of_guard (lc : Bool) (sz : Ix → Nat) (hpos : ∀ i, 0 < sz 
     obtain ⟨_, _, hnsB, hmB⟩ := scan_spec bT (desiredB aT bT out (aT.map sz) (bT.map sz))
     simp only [desiredA, desiredB] at hnsA hmA hnsB hmB
     apply result_eq_reference hpos hout hsub hsa hsb hlab hn2 hnsA hnsB
-    · intro i; rw [mem_con]; tauto
+    · intro i hnt; rw [mem_con]; tauto
     · intro i hnt
       rw [hmA]
       simp only [List.mem_append, mem_bat, mem_aKeep, mem_con]
@@ -545,5 +546,191 @@ theorem tensordot_plan_sound (axesA axesB : List Nat) (a b : FArr)
 /-- non-vacuity: `tensordot(a(2,3,4), b(4,5,3), axes=((2,1),(0,2)))` -/
 example : tensordotEq (.pair [2, 1] [0, 2]) [2, 3, 4] [4, 5, 3]
     = some ([97, 98, 99], [99, 100, 98], [97, 100]) := by decide
+
+
+/-! ## Tier 2 in certificate form: the checker `planOK` run on *real* plans -/
+
+theorem shape_of_zipAll {sz : Ix → Nat} {t : List Ix} {sh : List Nat} (hl : t.length = sh.length)
+    (h : (t.zip sh).all (fun p => sz p.1 == p.2) = true) : sh = t.map sz := by
+  induction t generalizing sh with
+  | nil => cases sh <;> simp_all
+  | cons a r ih =>
+    cases sh with
+    | nil => simp at hl
+    | cons d ds =>
+      simp only [List.zip_cons_cons, List.all_cons, Bool.and_eq_true, beq_iff_eq] at h
+      simp only [List.map_cons, List.cons.injEq]
+      exact ⟨h.1.symm, ih (by simpa using hl) h.2⟩
+
+theorem szOf2_pos {aT bT : List Ix} {shA shB : List Nat} (hA : ∀ d ∈ shA, 0 < d)
+    (hB : ∀ d ∈ shB, 0 < d) (i : Ix) : 0 < szOf2 aT shA bT shB i := by
+  unfold szOf2 szOf
+  split
+  · exact getD_one_pos hA _
+  · split
+    · exact getD_one_pos hB _
+    · exact Nat.one_pos
+
+theorem algebraCheck_sound {sz : Ix → Nat} {aT bT out dA dB C : List Ix}
+    (h : algebraCheck sz aT bT out dA dB C = true) :
+    (∀ i, sz i ≠ 1 → (i ∈ C ↔ i ∈ aT ∧ i ∈ bT ∧ i ∉ out)) ∧
+    (∀ i, sz i ≠ 1 → (i ∈ (scan aT dA).2 ↔ i ∈ aT ∧ i ∉ bT ∧ i ∉ out)) ∧
+    (∀ i, sz i ≠ 1 → (i ∈ (scan bT dB).2 ↔ i ∈ bT ∧ i ∉ aT ∧ i ∉ out)) := by
+  simp only [algebraCheck, Bool.and_eq_true, List.all_eq_true, Bool.or_eq_true, beq_iff_eq,
+    List.mem_append] at h
+  obtain ⟨⟨h1, h2⟩, h3⟩ := h
+  refine ⟨?_, ?_, ?_⟩
+  · intro i hnt
+    by_cases hin : (i ∈ aT ∨ i ∈ bT) ∨ i ∈ C
+    · rcases h1 i hin with h | h
+      · exact absurd h hnt
+      · have := congrArg (· = true) h
+        simp only [List.contains_iff_mem, Bool.and_eq_true, Bool.not_eq_eq_eq_not, Bool.not_true,
+          List.contains_eq_mem, decide_eq_false_iff_not, eq_iff_iff] at this
+        simpa [and_assoc] using this
+    · simp only [not_or] at hin
+      exact ⟨fun h => absurd h hin.2, fun h => absurd h.1 hin.1.1⟩
+  · intro i hnt
+    rw [(scan_spec aT dA).2.2.2 i]
+    constructor
+    · rintro ⟨ha, hd⟩
+      rcases h2 i ha with h | h
+      · exact absurd h hnt
+      · have := congrArg (· = true) h
+        simp only [Bool.not_eq_eq_eq_not, Bool.not_true, List.contains_eq_mem,
+          decide_eq_false_iff_not, Bool.and_eq_true, eq_iff_iff] at this
+        exact ⟨ha, this.1 hd⟩
+    · rintro ⟨ha, hb, ho⟩
+      refine ⟨ha, ?_⟩
+      rcases h2 i ha with h | h
+      · exact absurd h hnt
+      · have := congrArg (· = true) h
+        simp only [Bool.not_eq_eq_eq_not, Bool.not_true, List.contains_eq_mem,
+          decide_eq_false_iff_not, Bool.and_eq_true, eq_iff_iff] at this
+        exact this.2 ⟨hb, ho⟩
+  · intro i hnt
+    rw [(scan_spec bT dB).2.2.2 i]
+    constructor
+    · rintro ⟨hb, hd⟩
+      rcases h3 i hb with h | h
+      · exact absurd h hnt
+      · have := congrArg (· = true) h
+        simp only [Bool.not_eq_eq_eq_not, Bool.not_true, List.contains_eq_mem,
+          decide_eq_false_iff_not, Bool.and_eq_true, eq_iff_iff] at this
+        exact ⟨hb, this.1 hd⟩
+    · rintro ⟨hb, ha, ho⟩
+      refine ⟨hb, ?_⟩
+      rcases h3 i hb with h | h
+      · exact absurd h hnt
+      · have := congrArg (· = true) h
+        simp only [Bool.not_eq_eq_eq_not, Bool.not_true, List.contains_eq_mem,
+          decide_eq_false_iff_not, Bool.and_eq_true, eq_iff_iff] at this
+        exact this.2 ⟨ha, ho⟩
+
+/-- **planOK_sound** (DESIGN's Tier 2 in certificate form) — whatever plan the real planner returns
+    for an equation and shapes: if the checker `planOK` (Model/PlanOK.lean, run by the harness on
+    every real plan) accepts it, then executing it with `_do_contraction_via_bmm` is defined at
+    every step and gives the reference einsum, for **all** arrays of those shapes. -/
+theorem planOK_sound (aT bT out : List Ix) (shA shB : List Nat) (pl : Plan)
+    (h : planOK aT bT out shA shB pl = true) (a b : FArr) (hsa : a.shape = shA)
+    (hsb : b.shape = shB) :
+    ∃ r, evalPlan pl a b = some r ∧ r.shape = (einsum2 aT bT out a b).shape ∧
+      ∀ idx, inRange idx r.shape = true → r.get idx = (einsum2 aT bT out a b).get idx := by
+  unfold planOK at h
+  simp only [Bool.and_eq_true, beq_iff_eq, List.all_eq_true, decide_eq_true_eq, Bool.or_eq_true,
+    List.contains_iff_mem] at h
+  obtain ⟨⟨⟨⟨⟨⟨⟨⟨hl1, hl2⟩, hc1⟩, hc2⟩, hp1⟩, hp2⟩, hout⟩, hsub⟩, hrest⟩ := h
+  have hA : shA = aT.map (szOf2 aT shA bT shB) :=
+    shape_of_zipAll hl1 (by simpa [List.all_eq_true] using hc1)
+  have hB : shB = bT.map (szOf2 aT shA bT shB) :=
+    shape_of_zipAll hl2 (by simpa [List.all_eq_true] using hc2)
+  have hpos := szOf2_pos (aT := aT) (bT := bT) hp1 hp2
+  generalize szOf2 aT shA bT shB = sz at *
+  rw [hA] at hsa
+  rw [hB] at hsb
+  split at hrest
+  · rename_i dA dB hpa hpb
+    obtain ⟨a1, ha1, hla1⟩ := prepCheck_sound (sz := sz) hpa hsa
+    obtain ⟨b1, hb1, hlb1⟩ := prepCheck_sound (sz := sz) hpb hsb
+    obtain ⟨_, _, hnsA, _⟩ := scan_spec aT dA
+    obtain ⟨_, _, hnsB, _⟩ := scan_spec bT dB
+    split at hrest
+    · -- pure multiplication
+      rename_i hpure
+      simp only [Bool.and_eq_true] at hrest
+      obtain ⟨hpc, halg⟩ := hrest
+      obtain ⟨hCm, hSAm, hSBm⟩ := algebraCheck_sound halg
+      unfold pureCheck at hpc
+      split at hpc
+      · rename_i sA sB hsA hsB
+        simp only [Bool.and_eq_true, beq_iff_eq, List.all_eq_true, Bool.or_eq_true,
+          List.contains_iff_mem] at hpc
+        obtain ⟨⟨⟨⟨h1, h2⟩, h3⟩, h4⟩, h5⟩ := hpc
+        obtain ⟨a2, ha2, hra2⟩ := pure_operand_sound h1 h2 hla1
+        obtain ⟨b2, hb2, hrb2⟩ := pure_operand_sound h3 h4 hlb1
+        obtain ⟨r, hr, hlr⟩ := rep_mul' hra2 hrb2 (by
+          intro o ho
+          rcases h5 o ho with (h | h) | h
+          · exact Or.inl (by simpa using h)
+          · exact Or.inr (Or.inl (by simpa using h))
+          · exact Or.inr (Or.inr h))
+        refine ⟨r, ?_, ?_⟩
+        · simp only [evalPlan, ha1, hb1, Option.bind_some, hsA, hsB, ha2, hb2, hpure, ↓reduceIte, hr]
+        · exact result_eq_reference hpos hout (by
+            intro o ho; exact hsub o ho) hsa hsb (C := []) hlr (by simp) hnsA hnsB hCm hSAm hSBm
+      · cases hpc
+    · -- batched matmul
+      rename_i hpure
+      split at hrest
+      · rename_i Da Db hra hrb
+        obtain ⟨a2, ha2, hra2⟩ := reshapeCheck_sound hra hla1
+        obtain ⟨b2, hb2, hrb2⟩ := reshapeCheck_sound hrb hlb1
+        split at hrest
+        · rename_i Dab C hmm
+          obtain ⟨ab, hab, hrab⟩ := matmulCheck_sound hmm hra2 hrb2
+          have hCn : C.Nodup := by
+            unfold matmulCheck at hmm
+            split at hmm
+            · split at hmm
+              · rename_i hc
+                simp only [Option.some.injEq, Prod.mk.injEq] at hmm
+                simp only [Bool.and_eq_true, decide_eq_true_eq] at hc
+                rw [← hmm.2]; exact hc.1.1.2
+              · cases hmm
+            · split at hmm
+              · rename_i hc
+                simp only [Option.some.injEq, Prod.mk.injEq] at hmm
+                simp only [Bool.and_eq_true, decide_eq_true_eq] at hc
+                rw [← hmm.2]; exact hc.1.1.1.2
+              · cases hmm
+            · cases hmm
+          split at hrest
+          · rename_i D1 hr1
+            obtain ⟨ab1, hab1, hrab1⟩ := reshapeCheck_sound hr1 hrab
+            split at hrest
+            · rename_i D2 ht2
+              obtain ⟨r, hr, hrr⟩ := transposeCheck_sound ht2 hrab1
+              simp only [Bool.and_eq_true] at hrest
+              obtain ⟨hfin, halg⟩ := hrest
+              obtain ⟨hCm, hSAm, hSBm⟩ := algebraCheck_sound halg
+              have hlr := finalCheck_sound hfin hrr
+              refine ⟨r, ?_, ?_⟩
+              · have hp : pl.pure = false := by simpa using hpure
+                simp only [evalPlan, ha1, hb1, Option.bind_some, ha2, hb2, hp, Bool.false_eq_true,
+                  ↓reduceIte, hab, hab1]
+                exact hr
+              · exact result_eq_reference hpos hout (by
+                  intro o ho; exact hsub o ho) hsa hsb hlr hCn hnsA hnsB hCm hSAm hSBm
+            · cases hrest
+          · cases hrest
+        · cases hrest
+      · cases hrest
+  · cases hrest
+
+/-- non-vacuity: the checker accepts the repaired planner's plan for `aab,bc->ac` and rejects HEAD's -/
+example : planOK [0, 0, 1] [1, 2] [0, 2] [2, 2, 3] [3, 2]
+    ⟨.eins [0, 0, 1] [0, 1], .none, none, none, none, none, false⟩ = true := by decide
+example : planOK [0, 0, 1] [1, 2] [0, 2] [2, 2, 3] [3, 2]
+    ⟨.perm [0, 2], .none, none, none, none, none, false⟩ = false := by decide
 
 end Cotengra.C11
